@@ -15,6 +15,39 @@ Proof.
   assert (E : existsb (Z.eqb x) t = true) by (apply existsb_exists; exists x; split; [exact Hin | apply Z.eqb_refl]). congruence.
 Qed.
 
+(* the data class, decided (the flags are parameters: enumerated values are checked in the most permissive class) *)
+Definition plain_key_b0 (k : str) : bool := negb (Z.eqb k k_dollar_schema) && negb (Z.eqb k k_id) && negb (Z.eqb k k_headers).
+
+Lemma plain_key_b0_sound k : plain_key_b0 k = true -> plain_key k.
+Proof.
+  unfold plain_key_b0, plain_key. intros H. apply andb_true_iff in H. destruct H as [H H3]. apply andb_true_iff in H. destruct H as [H1 H2].
+  apply negb_true_iff in H1, H2, H3. apply Z.eqb_neq in H1, H2, H3. auto.
+Qed.
+
+Fixpoint jd_bf (fin_b : f64 -> bool) (an aa : bool) (fuel : nat) (v : goval) : bool :=
+  match fuel with
+  | O => false
+  | S f =>
+      match v with
+      | VNil => an
+      | VBool _ | VStr _ => true
+      | VFlt is32 x => negb is32 && fin_b x
+      | VArr _ l => aa && forallb (jd_bf fin_b an aa f) l
+      | VObj _ m => forallb (fun kv => plain_key_b0 (fst kv) && jd_bf fin_b an aa f (snd kv)) m && nodup_b (map fst m)
+      | _ => false
+      end
+  end.
+
+Lemma jd_bf_sound fin_b an aa : forall fuel v, jd_bf fin_b an aa fuel v = true -> jd (fun f => fin_b f = true) an aa v.
+Proof.
+  induction fuel as [|f IH]; intros v H; [discriminate|]. destruct v as [| | |is32 x| | |id l| |id m]; cbn [jd_bf] in H; try discriminate; try exact I; try exact H.
+  - apply andb_true_iff in H. destruct H as [H1 H2]. apply negb_true_iff in H1. cbn [jd]. split; assumption.
+  - apply andb_true_iff in H. destruct H as [Ha H]. apply jd_arr. split; [exact Ha|]. apply Forall_forall. intros x Hx. apply IH. apply (proj1 (forallb_forall _ _) H x Hx).
+  - apply andb_true_iff in H. destruct H as [H1 H2]. apply jd_obj. split; [|apply nodup_b_sound; exact H2].
+    apply Forall_forall. intros kv Hkv. pose proof (proj1 (forallb_forall _ _) H1 kv Hkv) as Hk. apply andb_true_iff in Hk. destruct Hk as [Hk1 Hk2].
+    split; [apply plain_key_b0_sound; exact Hk1 | apply IH; exact Hk2].
+Qed.
+
 Section Dec.
 Variable fin_b : f64 -> bool.
 Variable allow_null : bool.
@@ -31,29 +64,10 @@ Proof.
   apply negb_true_iff in H1, H2, H3. apply Z.eqb_neq in H1, H2, H3. auto.
 Qed.
 
-Fixpoint jd_b (fuel : nat) (v : goval) : bool :=
-  match fuel with
-  | O => false
-  | S f =>
-      match v with
-      | VNil => allow_null
-      | VBool _ | VStr _ => true
-      | VFlt is32 x => negb is32 && fin_b x
-      | VArr _ l => allow_arr && forallb (jd_b f) l
-      | VObj _ m => forallb (fun kv => plain_key_b (fst kv) && jd_b f (snd kv)) m && nodup_b (map fst m)
-      | _ => false
-      end
-  end.
+Definition jd_b := jd_bf fin_b allow_null allow_arr.
 
 Lemma jd_b_sound : forall fuel v, jd_b fuel v = true -> jd finP allow_null allow_arr v.
-Proof.
-  induction fuel as [|f IH]; intros v H; [discriminate|]. destruct v as [| | |is32 x| | |id l| |id m]; cbn [jd_b] in H; try discriminate; try exact I; try exact H.
-  - apply andb_true_iff in H. destruct H as [H1 H2]. apply negb_true_iff in H1. cbn [jd]. split; assumption.
-  - apply andb_true_iff in H. destruct H as [Ha H]. apply jd_arr. split; [exact Ha|]. apply Forall_forall. intros x Hx. apply IH. apply (proj1 (forallb_forall _ _) H x Hx).
-  - apply andb_true_iff in H. destruct H as [H1 H2]. apply jd_obj. split; [|apply nodup_b_sound; exact H2].
-    apply Forall_forall. intros kv Hkv. pose proof (proj1 (forallb_forall _ _) H1 kv Hkv) as Hk. apply andb_true_iff in Hk. destruct Hk as [Hk1 Hk2].
-    split; [apply plain_key_b_sound; exact Hk1 | apply IH; exact Hk2].
-Qed.
+Proof. exact (jd_bf_sound fin_b allow_null allow_arr). Qed.
 
 Definition kids_b (P : schema -> bool) (s : schema) : bool :=
   (match s_items_one s with Some c => P c | None => true end) &&
@@ -93,7 +107,7 @@ Definition local_clean_b (s : schema) : bool :=
   (negb allow_null || (is_nil_b (s_all_of s) && is_nil_b (s_any_of s) && is_nil_b (s_one_of s) && is_none (s_not s))) &&
   is_none (s_ref s) && (Z.eqb (s_format s) 0 || (contains k_number (s_types s) || contains k_integer (s_types s)) ||
      (contains k_string (s_types s) && (negb allow_arr || contains k_array (s_types s)))) && negb (s_nullable s) &&
-  forallb (fun e => jd_b (S (goval_depth e)) e) (s_enum s) &&
+  forallb (fun e => jd_bf fin_b true true (S (goval_depth e)) e) (s_enum s) &&
   (Z.eqb (s_pattern s) 0 || o_re_ok OR (s_pattern s)) &&
   (* arrays *)
   (is_none (s_items_one s) || is_none (s_items_tuple s)) &&
@@ -126,7 +140,7 @@ Proof.
     split; [revert Ho; destruct (s_one_of s); [reflexivity | discriminate] | revert Hc; destruct (s_not s); [discriminate | reflexivity]]. }
   split; [revert L13; destruct (s_ref s); [discriminate | reflexivity]|].
   split; [apply negb_true_iff; exact L11|].
-  split; [apply (forallb_Forall _ _ _ (fun e He => jd_b_sound _ e He) L10)|].
+  split; [apply (forallb_Forall _ _ _ (fun e He => jd_bf_sound fin_b true true _ e He) L10)|].
   split; [apply orb_true_iff in L9; destruct L9 as [E | E]; [left; apply Z.eqb_eq; exact E | right; exact E]|].
   split.
   { split; [apply orb_true_iff in L8; destruct L8 as [E | E]; [left; revert E; destruct (s_items_one s); [discriminate | reflexivity] | right; revert E; destruct (s_items_tuple s); [discriminate | reflexivity]]|].
@@ -147,7 +161,7 @@ Qed.
 Definition local_clean0_b (s : schema) : bool :=
   (negb allow_null || (is_nil_b (s_all_of s) && is_nil_b (s_any_of s) && is_nil_b (s_one_of s) && is_none (s_not s))) &&
   is_none (s_ref s) && negb (s_nullable s) &&
-  forallb (fun e => jd_b (S (goval_depth e)) e) (s_enum s) &&
+  forallb (fun e => jd_bf fin_b true true (S (goval_depth e)) e) (s_enum s) &&
   (Z.eqb (s_pattern s) 0 || o_re_ok OR (s_pattern s)) &&
   (* arrays *)
   (is_none (s_items_one s) || is_none (s_items_tuple s)) &&
@@ -161,7 +175,7 @@ Definition local_clean0_b (s : schema) : bool :=
   (* numbers *)
   (match s_maximum s with Some m => fin_b m | None => true end) && (match s_minimum s with Some m => fin_b m | None => true end).
 
-Lemma local_clean0_b_sound s : local_clean0_b s = true -> local_clean0 finP allow_null allow_arr OR s.
+Lemma local_clean0_b_sound s : local_clean0_b s = true -> local_clean0 finP allow_null OR s.
 Proof.
   intros H. unfold local_clean0_b in H. repeat (apply andb_true_iff in H; let H' := fresh "L" in destruct H as [H H']).
   unfold local_clean0, array_clean, object_clean, comp_clean, bounds_fin, nullsafe.
@@ -173,7 +187,7 @@ Proof.
     split; [revert Ho; destruct (s_one_of s); [reflexivity | discriminate] | revert Hc; destruct (s_not s); [discriminate | reflexivity]]. }
   split; [revert L12; destruct (s_ref s); [discriminate | reflexivity]|].
   split; [apply negb_true_iff; exact L11|].
-  split; [apply (forallb_Forall _ _ _ (fun e He => jd_b_sound _ e He) L10)|].
+  split; [apply (forallb_Forall _ _ _ (fun e He => jd_bf_sound fin_b true true _ e He) L10)|].
   split; [apply orb_true_iff in L9; destruct L9 as [E | E]; [left; apply Z.eqb_eq; exact E | right; exact E]|].
   split.
   { split; [apply orb_true_iff in L8; destruct L8 as [E | E]; [left; revert E; destruct (s_items_one s); [discriminate | reflexivity] | right; revert E; destruct (s_items_tuple s); [discriminate | reflexivity]]|].
